@@ -389,6 +389,8 @@ def show_sym(i, depth=0):
     k = sym_key(i)
     if k[0] == "leaf":
         return "%s[%s]" % (k[1], ",".join(str(j) for j in k[2]))
+    if k[0] == "cut":
+        return "{%s}" % unpk(("P", k[1])).show(2)
     if k[0] == "fn":
         if depth > 2:
             return "%s(...)" % k[1]
@@ -432,6 +434,8 @@ def leaf_names(p):
         elif k[0] == "fn":
             for a in k[2]:
                 walk_key(a)
+        elif k[0] == "cut":
+            walk_key(("P", k[1]))
 
     def walk_key(a):
         if is_pk(a):
@@ -471,6 +475,8 @@ def leaves_of(p):
         elif k[0] == "fn":
             for a in k[2]:
                 walk_key(a)
+        elif k[0] == "cut":
+            walk_key(("P", k[1]))
 
     def walk_key(a):
         if is_pk(a):
